@@ -45,6 +45,7 @@ SPECS = {
     "nullrule": '<start> ::= <e>* "b"\n<e> ::= "a" | ""\n',
     "nulltwice": '<start> ::= <e> <e> "b"\n<e> ::= "a" | ""\n',
     "nullopen": '<start> ::= ("a"?){2,} "b"\n',
+    "nullseq": '<start> ::= ("a"? "c")* "b"\n',
     "nullplus": '<start> ::= ("a"?)+ "b"\n',
     "nullnest": '<start> ::= ("a"*)* "b"\n',
     # 10: open-ended bound
